@@ -1197,11 +1197,6 @@ theorem migratedPath_ledger {s : State} {env : Env} {now : Time} (d : DummyOK s)
     · exact ⟨d.1, d.2.1, l2⟩
 
 
-/-- the frames an operation hands to loss recovery -/
-def handed : Op → List Frame
-  | .send _ _ _ _ _ _ frames sframes => frames ++ sframes
-  | _ => []
-
 theorem sentPacket_res (s : State) (env : Env) (t : Time) (pn la : PN) (sframes frames : List Frame) (lvl : Level)
     (size : Int) (mtu probe : Bool) :
     (s.sentPacket env t pn la sframes frames lvl size mtu probe).2 = .ok ∨
@@ -1242,11 +1237,11 @@ theorem popPacketNumber_out {s : State} {lvl : Level} {nts : PN} (_h : (s.popPac
 
 /-- every operation that does not panic conserves tracked + reported + discarded frames -/
 theorem step_ledger {s : State} {op : Op} {e : StepEnv} (d : DummyOK s) (hn : (s.step op e).2.res.isPanic = false) :
-    (pending s ++ handed op ~ pending (s.step op e).1 ++ evFrames (s.step op e).2.evs ++ (s.step op e).2.disc) ∧
+    (pending s ++ op.handed ~ pending (s.step op e).1 ++ evFrames (s.step op e).2.evs ++ (s.step op e).2.disc) ∧
       DummyOK (s.step op e).1 := by
   cases op with
   | send lvl now la size mtu probe frames sframes =>
-    simp only [State.step, handed] at hn ⊢
+    simp only [State.step, Op.handed] at hn ⊢
     rcases popPacketNumber_res s lvl e.nts with hp | hp
     · simp only [hp] at hn ⊢
       obtain ⟨p1, p2⟩ := popPacketNumber_ledger d hp
@@ -1261,32 +1256,32 @@ theorem step_ledger {s : State} {op : Op} {e : StepEnv} (d : DummyOK s) (hn : (s
       | err c => simp [hr, Res.isPanic] at hp
       | panic c => simp [hr, Res.isPanic] at hn
   | ack lvl now ranges =>
-    simp only [State.step, handed, List.append_nil] at hn ⊢
+    simp only [State.step, Op.handed, List.append_nil] at hn ⊢
     exact receivedAck_ledger d hn
   | timeout now =>
-    simp only [State.step, handed, List.append_nil] at hn ⊢
+    simp only [State.step, Op.handed, List.append_nil] at hn ⊢
     exact onLossDetectionTimeout_ledger d hn
   | probe lvl =>
-    simp only [State.step, handed, List.append_nil] at hn ⊢
+    simp only [State.step, Op.handed, List.append_nil] at hn ⊢
     exact queueProbePacket_ledger d hn
   | drop lvl now =>
-    simp only [State.step, handed, List.append_nil] at hn ⊢
+    simp only [State.step, Op.handed, List.append_nil] at hn ⊢
     exact dropPackets_ledger d hn
   | retry =>
-    simp only [State.step, handed, List.append_nil] at hn ⊢
+    simp only [State.step, Op.handed, List.append_nil] at hn ⊢
     exact resetForRetry_ledger d hn
   | migrate now =>
-    simp only [State.step, handed, List.append_nil] at hn ⊢
+    simp only [State.step, Op.handed, List.append_nil] at hn ⊢
     exact migratedPath_ledger d hn
   | rcvBytes n now =>
-    simp only [State.step, handed, List.append_nil, evFrames_nil]
+    simp only [State.step, Op.handed, List.append_nil, evFrames_nil]
     unfold State.receivedBytes
     simp only []
     split
     · exact ⟨List.Perm.refl _, d⟩
     · exact ⟨List.Perm.refl _, d⟩
   | rcvPacket lvl now =>
-    simp only [State.step, handed, List.append_nil, evFrames_nil]
+    simp only [State.step, Op.handed, List.append_nil, evFrames_nil]
     unfold State.receivedPacket
     split
     · exact ⟨List.Perm.refl _, d⟩
